@@ -101,8 +101,12 @@ def t_every_n(ctx):
     ns = list(range(1, 71)) if ctx.quick else sorted(set(range(1, 301)) | {x for k in range(9, 11) for x in (2 ** k - 1, 2 ** k, 2 ** k + 1)})
     for n in ctx.my(ns):
         ctx.hyp(s_variant(n), ctx.n(20, 40))
+    # transaction counts around the powers of two and around 253, where the count's CompactSize grows to three bytes (block
+    # weight and size count it)
+    for n in ctx.my([127, 128, 129, 252, 253, 254, 255, 256, 257]):
+        ctx.hyp(s_variant(n), ctx.n(4, 12))
     if ctx.shard == 0:
-        ctx.exhaustive.append('every transaction count n in %d..%d' % (ns[0], 70 if ctx.quick else 300))
+        ctx.exhaustive.append('every transaction count n in %d..%d; 127..129 and 252..257 (CompactSize boundary of the count)' % (ns[0], 70 if ctx.quick else 300))
 
 
 def t_random(ctx):
